@@ -188,6 +188,10 @@ def run(ctx):
     if not os.path.exists(rep):
         raise Inconclusive("c14-conc: rc=%s\n%s%s" % (rc, out[-2000:], err[-2000:]))
     C = json.load(open(rep))
+    if C.get("stuck"):
+        for v in C.get("violations") or []:
+            ctx.violation("concurrent histories: " + v, ctx.save_replay("conc-stuck", C), key="conc:stuck")
+        return
     if C.get("errors"):
         raise Inconclusive("c14-conc: driver errors: %s" % C["errors"][:3])
     if C.get("interfered_runs"):
